@@ -17,6 +17,7 @@ kinds:  flip     if C: A else: B          ->  if not C: B else: A               
         demorgan   not (a and b) <-> not a or not b
         tmpexpr    f(a + 1), x[i - 1]     ->  _e = a + 1; f(_e)                          (call-free arithmetic operands)
         rangeoff   for i in range(a, b)   ->  for i_0 in range(b - a): i = i_0 + a
+        k1+k2[+k3]  the kinds applied one after the other to the same function (only functions to which all of them apply)
 """
 import ast
 import copy
@@ -409,8 +410,22 @@ def rewrite(src, fn, kind):
     return out
 
 
+def rewrite_seq(src, q, kinds):
+    """apply several kinds one after the other to the function with qualname q (at least one must apply)"""
+    applied = 0
+    for k in kinds:
+        node = next((n for qq, n in _functions(ast.parse(src)) if qq == q), None)
+        if node is None:
+            return None
+        new = rewrite(src, node, k)
+        if new is not None and new != src:
+            src = new
+            applied += 1
+    return src if applied == len(kinds) else None
+
+
 def main(argv):
-    if not argv or (argv[0] not in KINDS and argv[0] != 'rename'):
+    if not argv or any(k not in KINDS and k != 'rename' for k in argv[0].split('+')):
         print(__doc__)
         return 2
     kind, argv = argv[0], argv[1:]
@@ -435,7 +450,7 @@ def main(argv):
             pids = wanted.get((mod, q))
             if not pids or (only and not any(o in f'{mod}::{q}' for o in only)):
                 continue
-            new = rewrite(src, node, kind)
+            new = rewrite(src, node, kind) if '+' not in kind else rewrite_seq(src, q, kind.split('+'))
             if new is None:
                 continue
             for pid in sorted(pids):
